@@ -159,11 +159,21 @@ func checkC04(env *fw.Env, c C04Case) *fw.Failure {
 			env.Rec.Add("depth_excluded", 1)
 			continue
 		}
-		if f := mismatch("Check", r, a1, b); f != nil {
+		// a mismatch is attributed to the side that deviates from the reference (root-cause signature, if recorded)
+		classify := func(f *fw.Failure, a answer) *fw.Failure {
+			switch {
+			case !a.err && (a.val == "true") != (expT == refsem.True):
+				f.Signature = semkit.ClassifyCheck(wS, rx, expT, a.val == "true", nil)
+			case !b.err && (b.val == "true") != (expT == refsem.True):
+				f.Signature = semkit.ClassifyCheck(c.World, r, expT, b.val == "true", nil)
+			}
 			return f
 		}
+		if f := mismatch("Check", r, a1, b); f != nil {
+			return classify(f, a1)
+		}
 		if f := mismatch("Check(repeated after a request without contextual tuples)", r, a1b, b); f != nil {
-			return f
+			return classify(f, a1b)
 		}
 		if !leak.err {
 			if ok, why := semkit.CompareCheck(expS, unkS, leak.val == "true", nil); !ok {
